@@ -3,8 +3,8 @@
 import json, os, shutil, sys
 pid = sys.argv[1]
 wave = sys.argv[2] if len(sys.argv) > 2 else "a"     # "b": second wave, stored as CNN-C / CNN-D
-base = {"a": "/tmp/seed_out", "b": "/tmp/seed_outb", "c": "/tmp/seed_outc", "d": "/tmp/seed_outd", "e": "/tmp/seed_oute", "f": "/tmp/seed_outf", "g": "/tmp/seed_outg"}[wave]
-names = {"a": {"A": "A", "B": "B"}, "b": {"A": "C", "B": "D"}, "c": {"A": "E", "B": "F"}, "d": {"A": "G", "B": "H"}, "e": {"A": "I", "B": "J"}, "f": {"A": "K", "B": "L"}, "g": {"A": "M", "B": "N"}}[wave]
+base = {"a": "/tmp/seed_out", "b": "/tmp/seed_outb", "c": "/tmp/seed_outc", "d": "/tmp/seed_outd", "e": "/tmp/seed_oute", "f": "/tmp/seed_outf", "g": "/tmp/seed_outg", "h": "/tmp/seed_outh"}[wave]
+names = {"a": {"A": "A", "B": "B"}, "b": {"A": "C", "B": "D"}, "c": {"A": "E", "B": "F"}, "d": {"A": "G", "B": "H"}, "e": {"A": "I", "B": "J"}, "f": {"A": "K", "B": "L"}, "g": {"A": "M", "B": "N"}, "h": {"A": "O", "B": "P"}}[wave]
 for k in ("A", "B"):
     src = f"{base}/{pid}/{k}"
     if not os.path.exists(f"{src}/patch.diff"):
@@ -15,6 +15,6 @@ for k in ("A", "B"):
         if os.path.exists(f"{src}/{f}"):
             shutil.copy(f"{src}/{f}", f"{dst}/{f}")
     notes = open(f"{src}/notes.md").read() if os.path.exists(f"{src}/notes.md") else ""
-    meta = {"property": pid, "origin": "sub-agent given only the property text and a scratch worktree" + {"a": "", "b": " (second wave: told which mechanisms the first wave had used, asked for different ones)", "c": " (third wave: told the mechanisms of both earlier waves and what the checks had become good at)", "d": " (fourth wave: told the mechanisms of the three earlier waves and what the checks had become good at; asked for rare values, three-way combinations, repetition, re-parenting, duck-typed user objects, less prominent clauses)", "e": " (fifth wave: told the mechanisms of the four earlier waves and what the checks had become good at; asked for overlooked clauses, two rare conditions at once, order dependence, accessor-only defects, rare parameter values, argument aliasing, second use in another role)", "f": " (sixth wave: told the mechanisms of the five earlier waves and what the checks had become good at; asked for Python-level traps, both boundaries at once, less central files, unusual global settings, numerical corner cases)", "g": " (seventh wave: change A is a partial, non-revert regression of one of the repository's recent fix: commits relevant to the property; change B free)"}[wave], "needs_to_manifest": "see notes.md", "verified": {}}
+    meta = {"property": pid, "origin": "sub-agent given only the property text and a scratch worktree" + {"a": "", "b": " (second wave: told which mechanisms the first wave had used, asked for different ones)", "c": " (third wave: told the mechanisms of both earlier waves and what the checks had become good at)", "d": " (fourth wave: told the mechanisms of the three earlier waves and what the checks had become good at; asked for rare values, three-way combinations, repetition, re-parenting, duck-typed user objects, less prominent clauses)", "e": " (fifth wave: told the mechanisms of the four earlier waves and what the checks had become good at; asked for overlooked clauses, two rare conditions at once, order dependence, accessor-only defects, rare parameter values, argument aliasing, second use in another role)", "f": " (sixth wave: told the mechanisms of the five earlier waves and what the checks had become good at; asked for Python-level traps, both boundaries at once, less central files, unusual global settings, numerical corner cases)", "g": " (seventh wave: change A is a partial, non-revert regression of one of the repository's recent fix: commits relevant to the property; change B free)", "h": " (eighth wave: both changes are partial, non-revert regressions of two different recent fix: commits relevant to the property)"}[wave], "needs_to_manifest": "see notes.md", "verified": {}}
     json.dump(meta, open(f"{dst}/meta.json", "w"), indent=1)
     print("imported", dst)
